@@ -171,6 +171,9 @@ func (c *conn) receive() (err error) {
 		switch length, index, ok := parseHeader(buffer[:8]); {
 		case length == 0 && index == -1 && !ok:
 			err = core.InvalidResponseError{}
+		case length != n-8:
+			// the declared length must be the number of bytes actually received
+			err = core.InvalidResponseError{}
 		default:
 			body := make([]byte, length)
 			copy(body, buffer[8:])
